@@ -90,6 +90,16 @@ def program(draw, tier):
                 node["emit"] = "sched_now"
         if draw(st.integers(0, 7)) == 0:
             node["schedule_on_start"] = True
+        # a quarter of the eligible nodes are wired as real static nodes (static_node.h selector / injection code)
+        int_ports = [p for p in ports if p not in structs]
+        if not sink and int_ports and draw(st.integers(0, 3)) == 0:
+            kind = draw(st.sampled_from(["sum2", "sum2_pb", "sum2_ub", "sum2_pub", "acc", "timer"]))
+            a = draw(st.sampled_from(int_ports))
+            if kind in ("acc", "timer"):
+                node = {"id": f"n{i}", "op": "snode", "kind": kind, "ins": [a], "bias": draw(st.integers(1, 5)), "coef": [draw(st.integers(1, 3))]}
+            else:
+                node = {"id": f"n{i}", "op": "snode", "kind": kind, "ins": [a, draw(st.sampled_from(int_ports))], "bias": draw(st.integers(0, 4)),
+                        "coef": [draw(st.integers(1, 3)), draw(st.integers(1, 3))]}
         stmts.append(node)
         if not sink:
             ports.append(f"n{i}")
@@ -121,7 +131,9 @@ def _classify(prog, model):
     for t in sorted(tick):
         for p in tick[t]:
             first_tick.setdefault(p, t)
+    from hgv.schedmodel import snode_equiv
     for s in prog["stmts"]:
+        s = snode_equiv(s)
         if s["op"] != "node":
             continue
         ins = s.get("ins", [])
@@ -206,6 +218,10 @@ def check(case, ctx) -> Result:
     kinds = _classify(case, model)
     # scheduler wake-up coinciding with an input tick
     for s in case["stmts"]:
+        if s["op"] == "snode" and s["kind"] == "timer":
+            res.labels.append("static_timer")
+        if s["op"] == "snode":
+            res.labels.append("static_node")
         if s["op"] == "node" and s.get("sched"):
             for d in tr.evals_of(s["id"], "r"):
                 q0 = d["x"].get("q0")
